@@ -2,5 +2,5 @@
 
 package scalar
 
-func verifLimbWidth() int                 { return 52 }
+func verifLimbWidth() int               { return 52 }
 func verifU(s *unpackedScalar) []uint64 { return append([]uint64(nil), s[:]...) }
